@@ -24,14 +24,18 @@ META = {
     "intra-cycle changes the effects applied after an edge are exactly those registered for the sampled argument iff "
     "the method ran, so the effect log is the concatenation over executed calls), c43_mock_result_same_cycle, "
     "c43_sys_call_value are proved for every program, every readiness history, every enable pattern and every mocked "
-    "function",
+    "function; multi-call CallTrigger: c43_trig_attempts (one attempt per listed call per awaited cycle, executes iff "
+    "granted), c43_trig_until (until_done / until_all_done / single await return at the FIRST cycle whose results "
+    "satisfy any / all / true, with that cycle's results), c43_trig_result_none_iff, c43_trig_counts (executed calls = "
+    "granted awaited cycles), c43_trig_blocked",
     "level_note": "PARTIAL by nature: the delta-cycle scheduling of pysim (sim.changed waking output_process on every "
     "settled change, processes settling before testbenches, delay(0) ordering the re-enable after the other testbenches "
     "of the instant, _freeze being set before any testbench runs) lives in the simulator runtime and is NOT modelled; "
     "the model takes the resulting event order as input and the correspondence exercises it (both testbench orders, "
     "five mock delays all shorter than the clock period, mid-cycle changes of readiness/arguments; a delay of a full "
-    "period or more is outside the model). validate_arguments_process and multi-method "
-    "CallTrigger / until_all_done are not modelled. trusted: Lean kernel (propext, Classical.choice, Quot.sound), "
+    "period or more is outside the model). validate_arguments_process is not modelled. Multi-call CallTrigger "
+    "(.call/.sample of methods and of a plain value, await / until_done / until_all_done) is modelled and compared on a "
+    "second design with three plain methods (no mock), executed calls counted per method by sampling Method.run. trusted: Lean kernel (propext, Classical.choice, Quot.sound), "
     "pysim, harness glue.",
 }
 
@@ -191,6 +195,8 @@ def simulate(case: Case) -> dict:
 
 
 def impl(case: Case) -> list[str]:
+    if case.desc.get("mode") == "trig":
+        return impl_trig(case)
     try:
         r = simulate(case)
     except Exception as e:  # noqa: BLE001 - an exception of the real code is an observation
@@ -211,6 +217,8 @@ def impl(case: Case) -> list[str]:
 
 
 def monitor(case: Case, out: list[str]) -> Optional[str]:
+    if case.desc.get("mode") == "trig":
+        return monitor_trig(case, out)
     if out[0] != "ok":
         return f"the real testbench code raised: {out[0]}"
     r = simulate(case)  # deterministic; the monitor needs the independently sampled method signals
@@ -285,6 +293,278 @@ def monitor(case: Case, out: list[str]) -> Optional[str]:
     if stray:
         return f"effects applied outside any sampled cycle: {stray}"
     return None
+
+
+
+# ------------------------------------------------------------------------------------------------
+# multi-call CallTrigger: three plain methods, awaited once / until_done / until_all_done
+
+_tdut_cls = None
+
+
+def _tdut_class():
+    global _tdut_cls
+    if _tdut_cls is None:
+        from amaranth import Elaboratable, Signal
+        from amaranth.lib.data import StructLayout
+        from transactron import Method, TModule, def_method
+
+        class TrigDut(Elaboratable):
+            def __init__(self):
+                self.m = [Method(i=StructLayout({"a": W}), o=StructLayout({"o": W})) for _ in range(3)]
+                self.m0, self.m1, self.m2 = self.m
+                self.rdy = [Signal(name=f"rdy{j}") for j in range(3)]
+                self.val = Signal(W)
+
+            def elaborate(self, platform):
+                m = TModule()
+                dummy = Signal()
+                m.d.sync += dummy.eq(~dummy)
+                def define(j):
+                    @def_method(m, self.m[j], ready=self.rdy[j])
+                    def _(a):
+                        return {"o": a + self.val + 7 * j}
+
+                for j in range(3):
+                    define(j)
+
+                return m
+
+        _tdut_cls = TrigDut
+    return _tdut_cls
+
+
+def _parse_tprog(cfg: str) -> list:
+    t = dict(x.split("=", 1) for x in cfg.split()[1:])
+    prog = []
+    for c in [] if t["prog"] == "-" else t["prog"].split(","):
+        if c == "k":
+            prog.append(("k",))
+        else:
+            mode, es = c.split(":")
+            ents = []
+            for e in es.split("+"):
+                if e == "v":
+                    ents.append(("v",))
+                elif e[0] == "s":
+                    ents.append(("s", int(e[1:])))
+                else:
+                    mth, d = e[1:].split(".")
+                    ents.append(("c", int(mth), int(d)))
+            prog.append((mode, ents))
+    return prog
+
+
+def _parse_tcyc(op: str) -> dict:
+    t = dict(x.split("=", 1) for x in op.split()[1:])
+    return dict(g=[int(c) for c in t["g"]], x=[None if v == "-" else int(v) for v in t["x"].split(",")], val=int(t["val"]))
+
+
+def simulate_trig(case: Case) -> dict:
+    """the REAL CallTrigger (.call/.sample, await / until_done / until_all_done) in PysimSimulator"""
+    from transactron.testing import SimpleTestCircuit
+    from transactron.testing.simulator import PysimSimulator
+    from transactron.testing.testbenchio import CallTrigger
+    from transactron.utils.dependencies import DependencyContext, DependencyManager
+
+    key = case.key()
+    if _last.get("key") == key:
+        return _last["res"]
+    prog = _parse_tprog(case.cfg)
+    cycles = [_parse_tcyc(op) for op in case.ops]
+    mod = 2**W
+    events: list[tuple[int, str]] = []
+    rows: list[list[int]] = []
+    edges = [0]
+    dm = DependencyManager()
+    with DependencyContext(dm):
+        dut = _tdut_class()()
+        circ = SimpleTestCircuit(dut)
+        sim = PysimSimulator(circ, max_cycles=len(cycles) + 8)
+        tbs = [circ.m0, circ.m1, circ.m2]
+
+        async def edge_counter(ctx):
+            async for _ in ctx.tick():
+                edges[0] += 1
+
+        async def driver(ctx):
+            for c in cycles:
+                ctx.set(dut.val, c["val"] % mod)
+                for j in range(3):
+                    ctx.set(dut.rdy[j], c["g"][j])
+                    if c["x"][j] is not None:
+                        ctx.set(tbs[j].adapter.en, 1)
+                        ctx.set(tbs[j].adapter.data_in.as_value(), c["x"][j] % mod)
+                    elif j in ext_only:
+                        ctx.set(tbs[j].adapter.en, 0)
+                s = await ctx.tick().sample(
+                    *[tb.adapter.en for tb in tbs],
+                    *[tb.adapter.done for tb in tbs],
+                    *[mm.run for mm in dut.m],
+                    *[mm.data_out.as_value() for mm in dut.m],
+                )
+                rows.append([int(x) for x in s[2:]])
+
+        async def caller(ctx):
+            for c in prog:
+                if c[0] == "k":
+                    await ctx.tick()
+                    continue
+                mode, ents = c
+                t = CallTrigger(ctx)
+                for e in ents:
+                    if e[0] == "c":
+                        t = t.call(tbs[e[1]], a=e[2] % mod)
+                    elif e[0] == "s":
+                        t = t.sample(tbs[e[1]])
+                    else:
+                        t = t.sample(dut.val)
+                res = await (t if mode == "O" else t.until_done() if mode == "U" else t.until_all_done())
+                out = []
+                for e, r in zip(ents, res):
+                    out.append(str(int(r)) if e[0] == "v" else "-" if r is None else str(int(r.o)))
+                events.append((edges[0] - 1, "/".join(out)))
+
+        # adapters only ever driven by the other agent (never called by the process): the driver owns their `en`
+        called = {e[1] for c in prog if c[0] != "k" for e in c[1] if e[0] == "c"}
+        ext_only = {j for j in range(3) if j not in called}
+        sim.add_process(edge_counter)
+        sim.add_testbench(driver)
+        if prog:
+            sim.add_testbench(caller, background=True)
+        sim.run()
+    res = dict(rows=rows, events=events, prog=prog, cycles=cycles)
+    _last.update(key=key, res=res)
+    return res
+
+
+def impl_trig(case: Case) -> list[str]:
+    try:
+        r = simulate_trig(case)
+    except Exception as e:  # noqa: BLE001
+        return [f"raise {type(e).__name__}"] + ["-"] * len(case.ops)
+    out = ["ok"]
+    for k, row in enumerate(r["rows"]):
+        evt = [e for kk, e in r["events"] if kk == k]
+        out.append(f"en={''.join(map(str, row[0:3]))} done={''.join(map(str, row[3:6]))} evt={evt[0] if evt else '-'}")
+    while len(out) < len(case.ops) + 1:
+        out.append("missing-cycle")
+    return out
+
+
+def monitor_trig(case: Case, out: list[str]) -> Optional[str]:
+    """multi-call CallTrigger on independently sampled Method.run / Method.data_out"""
+    if out[0] != "ok":
+        return f"the real testbench code raised: {out[0]}"
+    r = simulate_trig(case)
+    rows, prog, cycles = r["rows"], r["prog"], r["cycles"]
+    n = len(rows)
+    en = [row[0:3] for row in rows]
+    run = [row[6:9] for row in rows]  # Method.run of the three methods, every cycle
+    dout = [row[9:12] for row in rows]
+    ev = dict(r["events"])
+    if len(ev) != len(r["events"]):
+        return "two triggers returned in one cycle"
+    ext = lambda k, j: cycles[k]["x"][j] is not None  # noqa: E731
+    cur = 0
+    for c in prog:
+        if cur >= n:
+            break
+        if c[0] == "k":
+            for j in range(3):
+                if run[cur][j] and not ext(cur, j):
+                    return f"cycle {cur}: method {j} ran although the process was only waiting"
+            if cur in ev:
+                return f"cycle {cur}: a result was returned during a plain tick"
+            cur += 1
+            continue
+        mode, ents = c
+        calls = {e[1] for e in ents if e[0] == "c"}
+        k = cur
+        while k < n:
+            # each awaited cycle: exactly one attempt per listed call (adapter enabled; runs iff granted)
+            for j in range(3):
+                if j in calls:
+                    if not en[k][j]:
+                        return f"cycle {k}: trigger awaited but adapter of called method {j} is not enabled"
+                    if run[k][j] != cycles[k]["g"][j]:
+                        return f"cycle {k}: called method {j} granted={cycles[k]['g'][j]} but run={run[k][j]}"
+                elif run[k][j] and not ext(k, j):
+                    return f"cycle {k}: method {j} is not called by the trigger (nor by the other agent) but ran"
+            res = []
+            for e in ents:
+                if e[0] == "v":
+                    res.append(str(cycles[k]["val"] % 2**W))
+                else:
+                    res.append(str(dout[k][e[1]]) if run[k][e[1]] else "-")
+            some = [x != "-" for x in res]
+            fire = True if mode == "O" else any(some) if mode == "U" else all(some)
+            if fire:
+                # returns at the FIRST such cycle with that cycle's results (None iff the method did not run)
+                if ev.get(k) != "/".join(res):
+                    return (f"trigger {mode}:{ents} awaited from cycle {cur}: in cycle {k} the methods ran={run[k]} so it "
+                            f"must return {'/'.join(res)}; it returned {ev.get(k)}")
+                break
+            if k in ev:
+                return f"trigger {mode}:{ents} returned {ev[k]} in cycle {k} although its condition did not hold (ran={run[k]})"
+            k += 1
+        cur = k + 1
+    for k in range(cur, n):
+        for j in range(3):
+            if run[k][j] and not ext(k, j):
+                return f"cycle {k}: method {j} ran after the process had finished"
+        if k in ev:
+            return f"cycle {k}: a result was returned after the program ended"
+    return None
+
+
+def mk_trig(prog: list[str], cycles, tag: str) -> Case:
+    ops = [f"cyc g={''.join(map(str, g))} x={','.join('-' if v is None else str(v) for v in x)} val={val}" for g, x, val in cycles]
+    return Case(f"cfg mode=trig w={W} prog={','.join(prog) or '-'}", ops, {"mode": "trig"}, tag)
+
+
+def gen_trig(rng, n: int, tag="random") -> Case:
+    prog = ["k"]
+    called: set[int] = set()
+    cmds = []
+    for _ in range(rng.randint(2, 7)):
+        if rng.random() < 0.2:
+            cmds.append("k")
+            continue
+        ms = rng.sample([0, 1, 2], rng.randint(1, 3))
+        ents = []
+        for j in ms:
+            if j != 2 and rng.random() < 0.8:
+                ents.append(f"c{j}.{rng.randrange(2**W)}")
+                called.add(j)
+            else:
+                ents.append(f"s{j}")
+        if rng.random() < 0.2:
+            ents.insert(rng.randrange(len(ents) + 1), "v")
+        cmds.append(f"{rng.choice('OUUAA')}:{'+'.join(ents)}")
+    # a sampled method that some trigger also calls must not be poked by the other agent
+    prog += cmds
+    pg = [rng.choice([0.25, 0.5, 0.9]) for _ in range(3)]
+    cycles = [([0, 0, 0], [None] * 3, 0)]
+    for _ in range(n - 1):
+        g = [int(rng.random() < pg[j]) for j in range(3)]
+        x = [rng.randrange(2**W) if (j not in called and rng.random() < 0.5) else None for j in range(3)]
+        cycles.append((g, x, rng.randrange(2**W)))
+    return mk_trig(prog, cycles, tag)
+
+
+def directed_trig() -> list[Case]:
+    N = [None] * 3
+    out = []
+    # an always-ready method paired with one that becomes ready later: until_done returns at once with (v, None);
+    # until_all_done re-issues the first call every cycle until both run together
+    cyc = [([0, 0, 0], N, 0)] + [([1, 0, 0], N, k) for k in range(1, 5)] + [([1, 1, 0], N, 5), ([1, 1, 0], N, 6)] + [([1, 0, 1], N, 7)] * 3
+    out.append(mk_trig(["k", "U:c0.1+c1.2", "k", "A:c0.3+c1.4", "O:c0.5+c1.6", "U:c1.7+s2+c0.8"], cyc, "directed"))
+    # nothing ready for a while, then only the second; sampled method driven by the other agent; plain value sampled
+    cyc = [([0, 0, 0], N, 0), ([0, 0, 0], N, 1), ([0, 0, 1], [None, None, 9], 2), ([0, 1, 0], N, 3), ([1, 0, 1], [None, None, 4], 4),
+           ([1, 1, 1], [None, None, 5], 5), ([1, 1, 0], N, 6), ([0, 0, 1], [None, None, 7], 7), ([1, 1, 1], N, 8), ([1, 1, 1], N, 9)]
+    out.append(mk_trig(["k", "U:c0.1+c1.2", "U:c0.3+s2", "A:c0.1+c1.2+s2", "U:v+c0.9", "A:c1.1+v"], cyc, "directed"))
+    return out
 
 
 # ------------------------------------------------------------------------------------------------
@@ -372,7 +652,10 @@ def run(ctx: Check):
         "order) + per cycle three phases of readiness (and raw en/data), the mock's enable() value and the design input; "
         "non-trivial = a call that waits >= 1 cycle and succeeds, a call_try that returns None, and an executed mock "
         "call with effects all occur (command mode) / the request or argument changes inside a cycle in which the mock "
-        "runs (raw mode)"
+        "runs (raw mode); trigger mode: program of multi-call CallTriggers (1-3 of three methods called / sampled, plain "
+        "value sampled; await / until_done / until_all_done) + per cycle readiness bits and pokes of another agent; "
+        "non-trivial = a returned tuple mixes executed and non-executed calls and a call executed in a cycle in which "
+        "the trigger did not return"
     )
     ctx.proof_stage()
     rng = ctx.rng("gen")
@@ -382,17 +665,28 @@ def run(ctx: Check):
         b = json.loads(fn.read_text())
         cases.append(Case(b["cfg"], list(b["ops"]), b["desc"], "corpus"))
     cases += directed()
-    n = ctx.pick(110, 2500)
+    n = ctx.pick(60, 2500)
     for i in range(n):
         cases.append(gen_cmd(rng, rng.randint(12, 40)) if i % 2 == 0 else gen_raw(rng, rng.randint(8, 30)))
+    cases += directed_trig()
+    for _ in range(ctx.pick(40, 1500)):
+        cases.append(gen_trig(rng, rng.randint(10, 30)))
     for c in cases:
         ctx.count(f"mode_{c.desc['mode']}")
-        ctx.count(f"delay_{c.desc['delay']}")
-        ctx.count(f"mock_first_{c.desc['mock_first']}")
+        if c.desc["mode"] != "trig":
+            ctx.count(f"delay_{c.desc['delay']}")
+            ctx.count(f"mock_first_{c.desc['mock_first']}")
 
     def nontrivial(case, out):
         if out[0] != "ok":
             return False
+        if case.desc["mode"] == "trig":
+            # a trigger with >= 2 calls returned a tuple with both an executed and a non-executed call, and some
+            # trigger was awaited for more than one cycle while one of its calls executed
+            mixed = any("evt=" in o and "/" in o and "-" in o.split("evt=")[1].split("/") and
+                        any(x != "-" for x in o.split("evt=")[1].split("/")) for o in out[1:])
+            waited_run = any(o.endswith("evt=-") and "done=000" not in o and "en=000" not in o for o in out[1:])
+            return mixed and waited_run
         if case.desc["mode"] == "cmd":
             waited = False
             prev_wait = False
@@ -409,6 +703,10 @@ def run(ctx: Check):
         return False
 
     def more(case, rng2):
+        if case.desc["mode"] == "trig":
+            for _ in range(150):
+                yield gen_trig(rng2, 25, "search")
+            return
         for i in range(120):
             yield gen_cmd(rng2, 30, "search") if case.desc["mode"] == "cmd" or i % 2 else gen_raw(rng2, 24, "search")
 
